@@ -207,12 +207,15 @@ def case_discrete(case, res):
         if rng.random() < 0.3:
             pr[int(rng.integers(K))] = 1e-4
         pr = (pr / pr.sum()).astype(np.float32)
+        if rng.random() < 0.3 and K >= 3:
+            pr[int(rng.integers(K))] = 0.0          # an impossible outcome (log-probability -inf)
+            pr = (pr / pr.sum()).astype(np.float32)
         grid = lsl.Var(jnp.asarray(outcomes), name="grid")
         prior = lsl.Dist(tfd.FiniteDiscrete, outcomes=grid, probs=jnp.asarray(pr))
         kv = lsl.Var(jnp.asarray(outcomes[0]), prior, name="k")
         outs = None
     else:
-        p1 = float(np.round(rng.uniform(0.02, 0.98), 3))
+        p1 = float(np.round(rng.uniform(0.02, 0.98), 3)) if rng.random() < 0.8 else float(rng.choice([0.0, 1.0]))
         outcomes = np.array([0, 1], np.int32)
         pr = np.array([1 - p1, p1])
         prior = lsl.Dist(tfd.Bernoulli, probs=lsl.Value(jnp.asarray(p1, jnp.float32)))
@@ -245,7 +248,8 @@ def case_discrete(case, res):
     state = model.state
     # exact conditional from the model's own joint density
     lps = np.array([float(iface.log_prob(iface.update_state({"k": jnp.asarray(o)}, state))) for o in outcomes], np.float64)
-    probs = np.exp(lps - lps.max())
+    lps = np.where(np.isnan(lps), -np.inf, lps)
+    probs = np.exp(lps - lps[np.isfinite(lps)].max())
     probs /= probs.sum()
     N = case["n"]
 
